@@ -45,6 +45,16 @@ Theorem C07_count_list_set_arrival_order :
   aggregate op vals = aggregate op vals'.
 Proof. exact count_list_set_arrival_order. Qed.
 
+(* ArgMin / ArgMax: without ties among the (integer) values the chosen argument is order independent;
+   the choice among tied candidates is outside the property. *)
+Theorem C07_argmin_argmax_arrival_order_without_ties :
+  forall want_lt vals vals',
+  all_int (map snd (arg_pairs vals)) = true ->
+  NoDup (map (fun p => zof (snd p)) (arg_pairs vals)) ->
+  Permutation vals vals' ->
+  arg_ext want_lt vals = arg_ext want_lt vals'.
+Proof. exact argmin_argmax_arrival_order. Qed.
+
 Theorem C07_null_inputs_never_matter :
   forall op vals, documented op = true ->
   aggregate op vals = aggregate op (filter (fun v => negb (is_null v)) vals).
